@@ -7,18 +7,12 @@ git -C /repo worktree remove --force $wt 2>/dev/null; rm -rf $wt
 git -C /repo worktree add -q --detach $wt seedbase || exit 2
 cd $wt
 git apply "$out/patch.diff" || { echo "RESULT: patch does not apply"; exit 2; }
-echo "--- suite with change"; GOPROXY=off go test -vet=off -count=1 ./... 2>&1 | grep -v "no test files" | tail -15
-suite=${PIPESTATUS[0]}
+echo "--- suite with change"; GOPROXY=off go test -vet=off -count=1 ./... > /tmp/sv_suite_$id.txt 2>&1; suite=$?
+grep -v "no test files" /tmp/sv_suite_$id.txt | tail -15
 git checkout -q go.work.sum 2>/dev/null
 # demo: copy test files next to the package named in run.sh, or run run.sh
 cat "$out/demo/run.sh"
-for f in "$out"/demo/*_test.go; do
-  [ -e "$f" ] || continue
-  pkgdir=$(grep -ho "internal/[a-z/]*\|cmd/[a-z/]*" "$out/demo/run.sh" | head -1)
-  [ -z "$pkgdir" ] && pkgdir=internal/kessoku
-  cp "$f" "$pkgdir/"; echo "copied $(basename $f) to $pkgdir"
-done
-run_demo() { (cd $wt && GOPROXY=off bash "$out/demo/run.sh" 2>&1 | tail -25); return ${PIPESTATUS[0]}; }
+run_demo() { (set -o pipefail; cd $wt && GOPROXY=off bash "$out/demo/run.sh" 2>&1 | tail -25); }
 echo "--- demo WITH change"; run_demo; with=$?
 git apply -R "$out/patch.diff"
 echo "--- demo WITHOUT change"; run_demo; without=$?
